@@ -146,7 +146,9 @@ RECURSIVE JoinArgs(_, _)
 JoinArgs(args, i) == IF i > Len(args) THEN "" ELSE "/" \o args[i] \o JoinArgs(args, i + 1)
 Value(s, n) == LET v == VarOf(s, n) IN
                CASE v.kind = "str"  -> v.val
-                 [] v.kind = "join" -> s.cwd \o JoinArgs(v.args, 1)               \* absolute cleaned join (arguments are plain relative names)
+                 [] v.kind = "join" -> v.jdir \o JoinArgs(v.cargs, 1)             \* absolute cleaned join: jdir = the working directory (or the directory a `..`
+                                                                                   \* climbs to), cargs = the segments left of the arguments once `.`, `x/..`, `//` and
+                                                                                   \* trailing `/` are cleaned away (split and cleaned by the orchestrator: TLC cannot split strings)
                  [] v.kind = "exec" -> v.out                                      \* trimmed standard output of the command
 RECURSIVE Subst(_, _, _)
 Subst(s, ps, i) == IF i > Len(ps) THEN ""
